@@ -4,5 +4,7 @@ export VERIF_REPO="${VERIF_REPO:-/repo}"
 export GOFLAGS=-mod=mod GOPROXY=off GOSUMDB=off GOTOOLCHAIN=local
 export GOGC="${GOGC:-100}"
 GO="${VERIF_GO:-go1.26}"
-BUILD="$VERIF_DIR/build"
-mkdir -p "$BUILD/bin" "$BUILD/logs" "$BUILD/parts" "$BUILD/replay" "$BUILD/run" "$VERIF_DIR/evidence"
+export VERIF_BUILD="${VERIF_BUILD:-$VERIF_DIR/build}"
+BUILD="$VERIF_BUILD"
+EVID="${VERIF_EVIDENCE_DIR:-$VERIF_DIR/evidence}"
+mkdir -p "$BUILD/bin" "$BUILD/logs" "$BUILD/parts" "$BUILD/replay" "$BUILD/run" "$EVID"
